@@ -862,8 +862,10 @@ pub fn mark_fn_body(m: &mut Marker, body: &mut Block) {
             }
             AtAnchor::FnEnd => {
                 // before the trailing expression, if any
+                // ... and before a closing `return ..;` statement (code after it would be unreachable, an assertion there vacuous)
                 let pos = match body.stmts.last() {
                     Some(Stmt::Expr(_, None)) => body.stmts.len() - 1,
+                    Some(Stmt::Expr(Expr::Return(_), Some(_))) => body.stmts.len() - 1,
                     _ => body.stmts.len(),
                 };
                 body.stmts.insert(pos, marker_stmt("__VX_AT_", k));
